@@ -543,3 +543,7 @@ mod tests {
         assert_eq!(is_valid_token(&token_invalid, &db), false);
     }
 }
+
+#[cfg(kani)]
+#[path = "/verif/kani/db_ops_proofs.rs"]
+mod verif_kani;
